@@ -1,0 +1,167 @@
+//! Verification hooks, compiled only with `--cfg wilfred_garden_verif`.
+//!
+//! `garden verif <op>` reads one JSON object per line on stdin and
+//! writes one JSON value per line on stdout. The operations expose
+//! private pure functions (subtyping, unification, LSP position
+//! conversion, the lexer) so that counterexamples found by the
+//! external checker can be replayed against the real code. A panic
+//! inside an operation is reported as `{"panic": "..."}`.
+
+use std::io::BufRead;
+use std::path::PathBuf;
+use std::rc::Rc;
+
+use serde_json::{json, Value as J};
+
+use crate::garden_type::{is_subtype, Type, TypeDefKind};
+use crate::parser::ast::TypeName;
+use crate::parser::lex::lex;
+use crate::parser::vfs::Vfs;
+
+fn type_from_json(j: &J) -> Type {
+    if j == "Any" {
+        return Type::Any;
+    }
+    if let Some(items) = j.get("Tuple").and_then(|v| v.as_array()) {
+        return Type::Tuple(items.iter().map(type_from_json).collect());
+    }
+    if let Some(f) = j.get("Fun") {
+        let params = f["params"]
+            .as_array()
+            .map(|ps| ps.iter().map(type_from_json).collect())
+            .unwrap_or_default();
+        return Type::Fun {
+            name_sym: None,
+            type_params: vec![],
+            params,
+            return_: Box::new(type_from_json(&f["ret"])),
+        };
+    }
+    if let Some(u) = j.get("UD") {
+        let args = u["args"]
+            .as_array()
+            .map(|ps| ps.iter().map(type_from_json).collect())
+            .unwrap_or_default();
+        return Type::UserDefined {
+            kind: TypeDefKind::Enum,
+            name: TypeName {
+                text: u["name"].as_str().unwrap_or("").to_owned(),
+            },
+            args,
+        };
+    }
+    if let Some(t) = j.get("TP").and_then(|v| v.as_str()) {
+        return Type::TypeParameter(TypeName { text: t.to_owned() });
+    }
+    Type::error("verif: unknown type json")
+}
+
+fn type_to_json(t: &Type) -> J {
+    match t {
+        Type::Any => json!("Any"),
+        Type::Tuple(items) => json!({"Tuple": items.iter().map(type_to_json).collect::<Vec<_>>()}),
+        Type::Fun {
+            params, return_, ..
+        } => json!({"Fun": {"params": params.iter().map(type_to_json).collect::<Vec<_>>(),
+                            "ret": type_to_json(return_)}}),
+        Type::UserDefined { name, args, .. } => {
+            json!({"UD": {"name": name.text, "args": args.iter().map(type_to_json).collect::<Vec<_>>()}})
+        }
+        Type::TypeParameter(n) => json!({"TP": n.text}),
+        Type::Error { .. } => json!("Error"),
+    }
+}
+
+fn run_op(op: &str, req: &J) -> J {
+    match op {
+        "subtype" => json!(is_subtype(
+            &type_from_json(&req["a"]),
+            &type_from_json(&req["b"])
+        )),
+        "unify" => {
+            match crate::checks::type_checker::verif_unify(
+                &type_from_json(&req["a"]),
+                &type_from_json(&req["b"]),
+            ) {
+                Some(t) => type_to_json(&t),
+                None => J::Null,
+            }
+        }
+        "lsp-conv" => {
+            let src = req["src"].as_str().unwrap_or("");
+            match req["op"].as_str().unwrap_or("") {
+                "to_pos" => {
+                    let (line, character) = crate::lsp::verif_offset_to_lsp_position(
+                        src,
+                        req["offset"].as_u64().unwrap_or(0) as usize,
+                        req["line"].as_u64().unwrap_or(0) as usize,
+                    );
+                    json!({"line": line, "character": character})
+                }
+                "to_offset" => json!(crate::lsp::verif_line_char_to_offset(
+                    src,
+                    req["line"].as_u64().unwrap_or(0) as usize,
+                    req["character"].as_u64().unwrap_or(0) as usize,
+                )),
+                "whole" => {
+                    let (sl, sc, el, ec) = crate::lsp::verif_whole_document_range(src);
+                    json!({"start": {"line": sl, "character": sc}, "end": {"line": el, "character": ec}})
+                }
+                _ => json!({"error": "unknown lsp-conv op"}),
+            }
+        }
+        "lex" => {
+            let src = req["src"].as_str().unwrap_or("");
+            let mut vfs = Vfs::default();
+            let vfs_path = vfs.insert(Rc::new(PathBuf::from("__verif__.gdn")), src.to_owned());
+            let (mut tokens, errors) = lex(&vfs_path, src);
+            let mut out = vec![];
+            while let Some(t) = tokens.pop() {
+                let p = &t.position;
+                out.push(json!({
+                    "text": t.text, "start": p.start_offset, "end": p.end_offset,
+                    "line": p.line_number, "end_line": p.end_line_number,
+                    "column": p.column, "end_column": p.end_column,
+                    "comments": t.preceding_comments.iter().map(|(cp, c)| json!({
+                        "text": c, "start": cp.start_offset, "end": cp.end_offset,
+                        "line": cp.line_number, "end_line": cp.end_line_number,
+                        "column": cp.column, "end_column": cp.end_column})).collect::<Vec<_>>(),
+                }));
+            }
+            json!({"tokens": out, "errors": errors.len()})
+        }
+        _ => json!({"error": "unknown op"}),
+    }
+}
+
+pub(crate) fn run(op: &str) {
+    let stdin = std::io::stdin();
+    for line in stdin.lock().lines() {
+        let Ok(line) = line else { break };
+        if line.trim().is_empty() {
+            continue;
+        }
+        let req: J = match serde_json::from_str(&line) {
+            Ok(j) => j,
+            Err(e) => {
+                println!("{}", json!({"error": format!("bad json: {e}")}));
+                continue;
+            }
+        };
+        let op_owned = op.to_owned();
+        let res = std::panic::catch_unwind(move || run_op(&op_owned, &req));
+        match res {
+            Ok(j) => println!("{j}"),
+            Err(e) => {
+                let msg = if let Some(s) = e.downcast_ref::<&str>() {
+                    (*s).to_owned()
+                } else if let Some(s) = e.downcast_ref::<String>() {
+                    s.clone()
+                } else {
+                    "panic".to_owned()
+                };
+                println!("{}", json!({"panic": msg}));
+            }
+        }
+    }
+}
